@@ -64,6 +64,27 @@ def close(a, b, rel=REL, abs_=1e-6):
     return abs(a - b) <= abs_ + rel * max(abs(a), abs(b))
 
 
+def agrees(nll, kind, data, fstr, params):
+    """Does the reported likelihood belong to this function at these parameters?  The files carry 8 significant digits of
+    every parameter; for ill-conditioned functions (1/sin(a0) near a pole) that rounding alone moves the likelihood by more
+    than any fixed tolerance, so on a mismatch the sensitivity to a change of the last printed digit is measured and allowed for."""
+    m = nll_model(kind, data, fstr, params)
+    if close(nll, m):
+        return True, m
+    if m is None or not params:
+        return True, m
+    spread = 0.0
+    for j in range(len(params)):
+        for sgn in (1, -1):
+            q = list(params)
+            q[j] = q[j] * (1 + sgn * 2e-7) if q[j] else sgn * 1e-12
+            mq = nll_model(kind, data, fstr, q)
+            if mq is None or math.isinf(mq) or math.isinf(m):
+                return True, m          # a pole / domain edge within rounding distance: no verdict
+            spread = max(spread, abs(mq - m))
+    return abs(nll - m) <= 1e-6 + REL * max(abs(nll), abs(m)) + 25 * spread, m
+
+
 def tile(slices, N):
     """slices: list over ranks of (s, e) half-open.  Returns list of problems."""
     probs = []
@@ -96,9 +117,9 @@ def check_negloglike(path, uniq, kind, data, stats):
             probs.append(('extra-params-nonzero', 'negloglike', i, f, params))
         # optimise_fun only stores parameters when the best likelihood is < 1e100
         if math.isfinite(nll) and abs(nll) < 1e100:
-            m = nll_model(kind, data, f, params[:k])
+            ok, m = agrees(nll, kind, data, f, params[:k])
             stats['nll_rows_checked'] = stats.get('nll_rows_checked', 0) + 1
-            if m is not None and not close(nll, m):
+            if not ok:
                 probs.append(('nll-mismatch', 'negloglike', i, f, nll, m))
     return probs
 
@@ -112,9 +133,9 @@ def check_codelen(path, uniq, kind, data, stats):
         k = nparams(f)
         cl, nll, params = row[0], row[1], row[2:]
         if math.isfinite(nll) and abs(nll) < 1e100 and math.isfinite(cl) and k > 0:
-            m = nll_model(kind, data, f, params[:k])
+            ok, m = agrees(nll, kind, data, f, params[:k])
             stats['codelen_rows_checked'] = stats.get('codelen_rows_checked', 0) + 1
-            if m is not None and not close(nll, m):
+            if not ok:
                 probs.append(('nll-mismatch', 'codelen', i, f, nll, m))
     return probs
 
@@ -155,9 +176,9 @@ def check_final(path, allf, kind, data, stats):
             if f in allf:
                 kk = nparams(f)
                 params = [float(t) for t in r[7:]]
-                m = nll_model(kind, data, f, params[:kk])
+                ok, m = agrees(nll, kind, data, f, params[:kk])
                 stats['final_rows_checked'] = stats.get('final_rows_checked', 0) + 1
-                if m is not None and not close(nll, m):
+                if not ok:
                     probs.append(('nll-mismatch', 'final', k, f, nll, m))
             else:
                 probs.append(('unknown-function', k, f))
